@@ -166,6 +166,11 @@ func (rt *referenceTracker) processRowUpdate(table, uuid string, row *ovsdb.RowU
 	case row.Delete != nil:
 		rt.deleted[uuid] = table
 		updateRefs = getReferenceModificationsFromRow(&rt.dbModel, table, uuid, row.Old, row.Old)
+	case row.Modify != nil && row.Old != nil && row.New != nil:
+		// the modifications do not tell how many values of a map keep
+		// referencing a row, or if a map key is still there when only its
+		// value changed, so compare the references of the old and new rows
+		updateRefs = getReferenceModificationsFromRows(&rt.dbModel, table, uuid, row.Old, row.New)
 	case row.Modify != nil:
 		updateRefs = getReferenceModificationsFromRow(&rt.dbModel, table, uuid, row.Modify, row.Old)
 	case row.Insert != nil:
@@ -596,6 +601,27 @@ func getReferenceModificationsFromRow(dbModel *model.DatabaseModel, table, uuid 
 		refs.UpdateReferences(crefs)
 	}
 	return refs
+}
+
+// getReferenceModificationsFromRows returns the references that are made from
+// only one of the old and new rows, that is, the difference to apply to the
+// tracked references when the row changes from old to new.
+func getReferenceModificationsFromRows(dbModel *model.DatabaseModel, table, uuid string, old, new *ovsdb.Row) database.References {
+	oldRefs := getReferenceModificationsFromRow(dbModel, table, uuid, old, old)
+	newRefs := getReferenceModificationsFromRow(dbModel, table, uuid, new, new)
+	applyReferenceModifications(oldRefs, newRefs)
+	// rows referenced from both the old and new rows are not modifications
+	for spec, refs := range oldRefs {
+		for to, from := range refs {
+			if len(from) == 0 {
+				delete(refs, to)
+			}
+		}
+		if len(refs) == 0 {
+			delete(oldRefs, spec)
+		}
+	}
+	return oldRefs
 }
 
 func getReferenceModificationsFromColumn(dbModel *model.DatabaseModel, table, uuid, column string, modify, old interface{}) database.References {
